@@ -5,7 +5,7 @@ PATCH=$1; PROP=$2; TIER=${3:-quick}
 cd /repo || exit 2
 if ! git apply --check "$PATCH" 2>/dev/null; then echo "patch does not apply: $PATCH"; exit 3; fi
 git apply "$PATCH"
-cd /verif && ./check "$PROP" --tier "$TIER" > /verif/_build/mut_last.log 2>&1
+cd /verif && VERIF_EVIDENCE_DIR=/verif/_build/evidence_selftest ./check "$PROP" --tier "$TIER" > /verif/_build/mut_last.log 2>&1
 RC=$?
 git -C /repo checkout -- . 
 grep -E "VIOLATION|KNOWN-FINDING|failing input|: ok" /verif/_build/mut_last.log | head -8
